@@ -423,7 +423,7 @@ func ruleR3pContextMove(c *Ctx) []Obligation {
 		return true
 	}
 	for round := 0; ; round++ {
-		r2pRebuildAll(c, mv)
+		r2pRebuildAll(c, mv, nil)
 		if same(mv.found, mv.movers) || round >= 4 {
 			break
 		}
